@@ -853,19 +853,19 @@ class Interp:
         if td is not None and td.kind == 'enum':
             vi = td.variant_index(last)
             if vi is not None:
-                return Agg(td.name, ops, vi, last)
+                return Agg(td.name, ops, vi, last, td=td)
         if td is not None and td.kind == 'struct' and td.name == last:
-            return Agg(td.name, ops)
+            return Agg(td.name, ops, td=td)
         # Enum::Variant path
         if len(segs) >= 2:
             td2 = self.types.lookup('::'.join(segs[:-1]), fn.crate)
             if td2 is not None and td2.kind == 'enum':
                 vi = td2.variant_index(last)
                 if vi is not None:
-                    return Agg(td2.name, ops, vi, last)
+                    return Agg(td2.name, ops, vi, last, td=td2)
         td3 = self.types.lookup(nm, fn.crate)
         if td3 is not None and td3.kind == 'struct':
-            return Agg(td3.name, ops)
+            return Agg(td3.name, ops, td=td3)
         if dest_ty is not None:
             b = base_name(dest_ty)
             if b is not None and b == last:
@@ -876,7 +876,7 @@ class Interp:
             if d.kind == 'enum' and d.variant_index(last) is not None:
                 hits.append(d)
         if len(hits) == 1:
-            return Agg(hits[0].name, ops, hits[0].variant_index(last), last)
+            return Agg(hits[0].name, ops, hits[0].variant_index(last), last, td=hits[0])
         raise Gap('cannot type aggregate %s (dest %s)' % (name, dest_ty))
 
     # ------------------------------------------------------------------ statements
